@@ -37,7 +37,7 @@ RULE = ('case = (environment or component, state, action) with its scramble / re
 ASSUMPTIONS = ['identity scans are diagnostics; the verdict is behavioural (a mutation on one side visible on the other)']
 REQUIRED = {'quick': {'purity.calls': 10000, 'alias.step_pairs': 3000, 'alias.observation': 1500, 'history.step': 3000,
                       'history.observation': 1500, 'history.shortest_path': 100, 'history.rays': 60, 'copy.checked': 800,
-                      'registry.purity': 5000, 'purity.component_calls': 3000, 'history.rebuild_equivalence': 500}}
+                      'registry.purity': 5000, 'purity.component_calls': 3000, 'history.rebuild_equivalence': 500, 'pose.at_view_anchor': 30}}
 
 
 def scramble(state, rng):
@@ -420,6 +420,8 @@ def run(ctx):
                 break
             rng = gen.rng_for('C03comp', ctx.seed, c)
             comp = workloads.Composition(rng, force_all_actions=True, dense=(c % 4 == 1))
+            if c % 5 == 2:  # the view coincides with the whole grid when the agent stands at the anchor facing forward
+                comp.shape = (comp.area.height, comp.area.width)
             holder = {}
             env = comp.build(lambda rng=None: holder['s'])
             deterministic = not ({'move_obstacles', 'teleport'} & {t['name'] for t in comp.transitions})
@@ -427,6 +429,10 @@ def run(ctx):
                 state, cat = comp.member_state(rng)
                 if state is None:
                     continue
+                if c % 5 == 2 and k % 2 == 0:
+                    state.agent.position = Position(comp.shape[0] - 1, comp.shape[1] // 2)
+                    state.agent.orientation = Orientation.F
+                    ctx.hit('pose.at_view_anchor')
                 holder['s'] = state
                 payload = {'comp_seed': [ctx.seed, c], 'state': enc.state_to_json(state)}
                 if nontrivial(state):
@@ -510,6 +516,8 @@ def replay(ctx, kind, payload):
         elif 'comp_seed' in payload:
             crng = gen.rng_for('C03comp', payload['comp_seed'][0], payload['comp_seed'][1])
             comp = workloads.Composition(crng, force_all_actions=True, dense=(payload['comp_seed'][1] % 4 == 1))
+            if payload['comp_seed'][1] % 5 == 2:
+                comp.shape = (comp.area.height, comp.area.width)
             st = enc.state_from_json(payload['state'])
             env = comp.build(lambda rng=None: st)
         elif 'state' in payload:
